@@ -432,6 +432,9 @@ class AhocorasickTokenizer(Tokenizer):
             for s in e.strings
         )
         # Build a pyahocorasick filter for all case-insensitive extractors
+        self.case_insensitive_extractors = [
+            e for e in self.extractors if e.strings and e.flags & re.I
+        ]
         self.case_insensitive_filter = self.make_ahocorasick_filter(
             (s.lower(), e)
             for e in self.extractors
@@ -447,7 +450,12 @@ class AhocorasickTokenizer(Tokenizer):
         if len(self.case_sensitive_filter):
             for _, extractors in self.case_sensitive_filter.iter(text):
                 unique_extractors.update(extractors)
-        if len(self.case_insensitive_filter):
+        if not text.isascii():
+            # str.lower() does not mirror re.IGNORECASE for every non-ASCII
+            # character ("ſupra", "İd." match but lower-case differently),
+            # so the lower-cased filter is only reliable for ASCII text
+            unique_extractors.update(self.case_insensitive_extractors)
+        elif len(self.case_insensitive_filter):
             for _, extractors in self.case_insensitive_filter.iter(
                 text.lower()
             ):
